@@ -280,8 +280,12 @@ def disabled_other_entry_points(backend, container, name, kind, mk_s, mk_d, lazy
         @pa.check_output(s, lazy=lazy)
         def producer(obj):
             return obj
+        @pa.check_io(obj=s, out=s, lazy=lazy)
+        def both(obj):
+            return obj
         probe("check_input", consumer, mk_d())
         probe("check_output", producer, mk_d())
+        probe("check_io", both, mk_d())
     return out
 
 
